@@ -171,14 +171,24 @@ fn gen_ints(rng: &mut Rng) -> Ints {
     Ints { a: pick(i8::MIN as i128, i8::MAX as i128, rng.next()) as i8, b: pick(i16::MIN as i128, i16::MAX as i128, rng.next()) as i16, c: pick(i32::MIN as i128, i32::MAX as i128, rng.next()) as i32, d: pick(i64::MIN as i128, i64::MAX as i128, rng.next()) as i64,
            e: pick(0, u8::MAX as i128, rng.next()) as u8, f: pick(0, u16::MAX as i128, rng.next()) as u16, g: pick(0, u32::MAX as i128, rng.next()) as u32, h: pick(0, u64::MAX as i128, rng.next()) as u64 }
 }
+/// k·10^e for one-digit k: the doubles whose shortest spelling has a single significant digit (the
+/// spellings `1e10`, `4e-7`, … that exercise exponent forms without a fraction)
+fn short_decimal(rng: &mut Rng, emin: i32, emax: i32) -> f64 {
+    let k = 1 + rng.below(9) as i32;
+    let e = emin + rng.below((emax - emin + 1) as u64) as i32;
+    let x: f64 = format!("{}e{}", k, e).parse().unwrap_or(1.0);
+    if rng.chance(1, 2) { -x } else { x }
+}
 fn gen_f64(rng: &mut Rng, finite: bool) -> f64 {
     loop {
+        if rng.chance(1, 8) { let x = short_decimal(rng, -323, 308); if x.is_finite() { return x; } }
         let x = match rng.below(6) { 0 => *rng.pick(&[0.0, -0.0, 1.0, -1.5, 1e21, 1e-7, f64::MAX, f64::MIN_POSITIVE, 5e-324, 0.1, 1e16]), 1 if !finite => *rng.pick(&[f64::NAN, f64::INFINITY, f64::NEG_INFINITY]), _ => f64::from_bits(rng.next()) };
         if !finite || x.is_finite() { return x; }
     }
 }
 fn gen_f32(rng: &mut Rng, finite: bool) -> f32 {
     loop {
+        if rng.chance(1, 6) { let x = short_decimal(rng, -45, 38) as f32; if x.is_finite() { return x; } }
         let x = match rng.below(6) { 0 => *rng.pick(&[0.0, -0.0, 1.0, 3.4028235e38, 1e-45, 0.1, 16777216.0]), 1 if !finite => *rng.pick(&[f32::NAN, f32::INFINITY]), _ => f32::from_bits(rng.next() as u32) };
         if !finite || x.is_finite() { return x; }
     }
